@@ -228,22 +228,23 @@ def isRead : DriverCall V → Bool
   | _ => false
 
 /-- what the statement demands of one request of a history, given the node as it is at that moment -/
-def RequestOK (pre : Predef) (env : Env V) (n : Node J V) (r : Request J) (o : Obs J V) : Prop :=
+def RequestOK (pre : Predef) (env : Env V) (n : Node J V) (r : Request J V) (o : Obs J V) : Prop :=
   match r with
   | .change spec j => ExchangeOK (changeVerdict pre env n spec j) o
   | .do_ spec data => ExchangeOK (doVerdict pre n spec data) o
   | .read _ _ => o.calls.all isRead = true          -- a read never writes or executes
+  | .assign _ _ _ => o.calls = []                   -- an assignment inside the module is not a driver call
 
-instance [DecidableEq J] [DecidableEq V] (pre : Predef) (env : Env V) (n : Node J V) (r : Request J) (o : Obs J V) :
+instance [DecidableEq J] [DecidableEq V] (pre : Predef) (env : Env V) (n : Node J V) (r : Request J V) (o : Obs J V) :
     Decidable (RequestOK pre env n r o) := by
   unfold RequestOK; split <;> infer_instance
 
-def requestOKB [DecidableEq J] [DecidableEq V] (pre : Predef) (env : Env V) (n : Node J V) (r : Request J)
+def requestOKB [DecidableEq J] [DecidableEq V] (pre : Predef) (env : Env V) (n : Node J V) (r : Request J V)
     (o : Obs J V) : Bool := decide (RequestOK pre env n r o)
 
 /-- the statement along a whole history of the model: every request is judged against the node (cache,
 hence dynamic limits) left behind by the requests before it -/
-def HistoryOK (pre : Predef) : Node J V → List (Env V × Request J) → Prop
+def HistoryOK (pre : Predef) : Node J V → List (Env V × Request J V) → Prop
   | _, [] => True
   | n, (env, r) :: rest =>
     RequestOK pre env n r (obsOf n (step pre env n r)) ∧ HistoryOK pre (step pre env n r).node rest
